@@ -236,7 +236,9 @@ func (d *delegate) MergeRemoteState(buf []byte, _ bool) {
 		}
 		if err := s.Merge(p.Data); err != nil {
 			d.logger.Warn("merge remote state", "err", err, "key", p.Key)
-			return
+			// A part that cannot be merged must not keep the remaining,
+			// well-formed parts from being merged.
+			continue
 		}
 	}
 }
